@@ -68,7 +68,12 @@ def floors(tier):
          "energy_conservation_checks": 30 * k, "norm_conservation_checks": 10 * k, "normalised_checks": 20 * k,
          "dt_not_dividing": 10 * k, "yield_initial_checked": 3 * k, "H:list": 5 * k, "H:single": 5 * k,
          "u:real-time": 20 * k, "u:imaginary-time": 5 * k, "u:complex": 5 * k, "order_tests": 2 * k,
-         "order_ratios_judged": 2 * k, "fermionic_cases": 10 * k, "bond_growth_runs": 3 * k}
+         "order_ratios_judged": 2 * k, "order_ratios_judged:2nd": 2 * k, "order_ratios_judged:4th": 2 * k,
+         "timedep:callable-returns-list": 2 * k, "timedep:callable-returns-mpo": 2 * k,
+         "fermionic_cases": 10 * k, "bond_growth_runs": 3 * k,
+         "omitted:all": 4 * k, "omitted:none": 20 * k, "omitted:times": k, "omitted:dt": k,
+         "H_special:zero": 2 * k, "H_special:identity": k, "H_special:scaled": 3 * k, "start:scaled": 10 * k,
+         "N=1": 4 * k, "N=2": 8 * k, "must_reject_ok": 3 * k, "tiny_dt_runs": 2 * k, "2site_or_12site_with_empty_opts_svd": 3 * k}
     for m in ("1site", "2site", "12site"):
         for o in ("2nd", "4th"):
             f[f"mo:{m}:{o}"] = 3 * k
@@ -215,6 +220,64 @@ def guarded_iter(ctx, gen, tag, witness, failed):
 
 
 
+TDVP_DEFAULTS = {"times": (0, 0.1), "dt": 0.1, "u": 1j, "method": "1site", "order": "2nd", "opts_expmv": None, "opts_svd": None,
+                 "normalize": True, "subtract_E": False, "precompute": False, "yield_initial": False}
+
+
+def apply_omissions(run):
+    """Arguments in run['omit'] are not passed to tdvp_; the run description is set to their documented defaults."""
+    for k in run.get("omit", ()):
+        run[k] = TDVP_DEFAULTS[k]
+        if k == "times":
+            run["times_arg"] = None
+        if k == "u":
+            run["ukind"] = "real-time"
+    if run["method"] in ("2site", "12site") and run["opts_svd"] is None:
+        run["opts_svd"] = {}                         # required by these methods; {} = no truncation
+    return run
+
+
+def tdvp_kwargs(run):
+    omit = run.get("omit", frozenset())
+    shuffle = run.get("shuffle")
+    kw = {}
+    if "times" not in omit:
+        kw["times"] = run["times_arg"]
+    for k in ("dt", "u", "method", "order", "normalize", "subtract_E", "precompute", "yield_initial"):
+        if k not in omit:
+            kw[k] = run[k]
+    for k in ("opts_expmv", "opts_svd"):
+        if run[k] is not None:
+            items = list(run[k].items())
+            if shuffle is not None:
+                shuffle.shuffle(items)              # insertion order of an options dictionary must not matter
+            kw[k] = dict(items)
+    if shuffle is not None:
+        items = list(kw.items())
+        shuffle.shuffle(items)
+        kw = dict(items)
+    return kw
+
+
+def must_reject(ctx, psi, H, witness, rng):
+    """Arguments that the error messages of tdvp_ define as invalid: YastnError expected (raised at the first next())."""
+    import yastn
+    import yastn.tn.mps as mps
+    a = rng.uniform(0.05, 0.3)
+    what, kw = rng.choice((("times:zero-length-interval", {"times": (0.0, a, a)}), ("times:t0==t1", {"times": (a, a)}),
+                           ("times:final-time-0", {"times": 0}), ("times:descending", {"times": (a, 0.0)}),
+                           ("times:not-ascending", {"times": (0.0, 2 * a, a)}), ("dt=0", {"dt": 0.0}), ("dt<0", {"dt": -0.1}),
+                           ("method-unknown", {"method": "one-site"}), ("order-unknown", {"order": "1st"}),
+                           ("2site-without-opts_svd", {"method": "2site"})))
+    ctx.count("must_reject_cases")
+    try:
+        next(mps.tdvp_(psi.shallow_copy(), H, **kw))
+    except yastn.YastnError:
+        ctx.count("must_reject_ok")
+        return
+    ctx.violation("must-reject:" + what, f"tdvp_(psi, H, {kw}) did not raise YastnError", witness)
+
+
 def expected_steps(delta, dt):
     """Smallest number of equal steps not longer than dt (dt is 'adjusted down')."""
     r = delta / dt
@@ -234,12 +297,7 @@ def run_tdvp(ctx, psi, H, sec, run, tag, witness, full, ref0, Hfun=None, judge=T
     times, dt, u = run["times"], run["dt"], run["u"]
     normalize, subtract_E = run["normalize"], run["subtract_E"]
     tol = expmv_tol(run["opts_expmv"])
-    kw = dict(times=run["times_arg"], dt=dt, u=u, method=run["method"], order=run["order"], normalize=normalize,
-              subtract_E=subtract_E, precompute=run["precompute"], yield_initial=run["yield_initial"])
-    if run["opts_expmv"] is not None:
-        kw["opts_expmv"] = dict(run["opts_expmv"])
-    if run["opts_svd"] is not None:
-        kw["opts_svd"] = dict(run["opts_svd"])
+    kw = tdvp_kwargs(run)
     N = psi.N
     nsub = 1 if run["order"] == "2nd" else 5
     hermitian_real_time = (u == 1j) and Hfun is None
@@ -279,7 +337,7 @@ def run_tdvp(ctx, psi, H, sec, run, tag, witness, full, ref0, Hfun=None, judge=T
         w = dict(witness, snapshot=k, out=[float(out.ti), float(out.tf), bool(out.time_independent), float(out.dt), int(out.steps)])
         # ---------------- bookkeeping
         ctx.count("bookkeeping_checks")
-        tscale = max(1.0, abs(t_k), abs(t_prev))
+        tscale = max(abs(t_k), abs(t_prev))          # relative: times of any magnitude are judged alike
         if out.ti != t_prev:
             ctx.violation("bookkeeping:ti", f"{tag} snapshot {k}: ti = {out.ti!r}, interval starts at {t_prev!r}", w)
         if not ctx.margin("tf", abs(out.tf - t_k), 1e-12 * tscale):
@@ -307,14 +365,19 @@ def run_tdvp(ctx, psi, H, sec, run, tag, witness, full, ref0, Hfun=None, judge=T
             break
         if normalize:
             ctx.count("normalised_checks")
-            if not within(ctx, "normalised", abs(nv - 1.0), allowed):
-                if run["method"] in ("2site", "12site") and abs(nv - n0) <= allowed * n0:
+            if not within(ctx, "normalised" + ("" if run["conserving"] else ":truncation-binding"), abs(nv - 1.0), allowed):
+                if not run["conserving"] and nv < 1.0:
+                    failed.append(("not-normalised:truncation-binding",
+                                   f"{tag} snapshot {k}: ||psi|| = {nv!r} with normalize=True and a binding truncation ({run['opts_svd']}): "
+                                   f"post_2site_ keeps the truncated Schmidt values un-normalised and the {run['method']} sweep does not "
+                                   f"renormalise, although normalize=True promises a result of unit norm", w))
+                elif run["method"] in ("2site", "12site") and abs(nv - n0) <= allowed * n0:
                     failed.append(("not-normalised:2site-keeps-initial-norm",
                                    f"{tag} snapshot {k}: ||psi|| = {nv!r} with normalize=True: the {run['method']} sweep normalises the local "
                                    f"tensors but never resets psi.factor, so the norm {n0!r} of the initial state survives", w))
                 else:
                     failed.append(("not-normalised", f"{tag} snapshot {k}: ||psi|| = {nv!r} with normalize=True", w))
-        elif hermitian_real_time:
+        elif hermitian_real_time and run["conserving"]:
             ctx.count("norm_conservation_checks")
             if not within(ctx, "norm-drift", abs(nv - n0) / n0, allowed):
                 failed.append(("norm-drift", f"{tag} snapshot {k}: ||psi|| went from {n0!r} to {nv!r} (real time, Hermitian H, "
@@ -352,20 +415,18 @@ def run_tdvp(ctx, psi, H, sec, run, tag, witness, full, ref0, Hfun=None, judge=T
 
 # ------------------------------------------------------------------ case generation
 
-def draw_grid(rng, scale, light=False):
-    """times tuple + dt; lengths are scaled by 1/||H|| so that ||H|| * interval stays O(1)."""
-    t0 = rng.choice((0.0, 0.0, 0.25, -0.4))
+def draw_grid(rng, unit, light=False, tiny=False):
+    """times tuple + dt.  unit = 1/||H||: ||H|| * dt stays below 0.3.  Every interval is (k - 1 + frac) * dt with frac in
+    [0.15, 0.9] (dt does not divide it: k steps of a smaller size) or exactly k * dt, so that the documented step count is
+    unambiguous for times of any magnitude; tiny: dt = 1e-8 * unit."""
     m = rng.choice((1, 1, 2) if light else (1, 1, 2, 3))
-    unit = 1.0 / scale
+    dt = (1e-8 if tiny else rng.uniform(0.08, 0.3)) * unit
+    t0 = 0.0 if tiny else rng.choice((0.0, 0.0, 0.25, -0.4)) * unit
     times = [t0]
     for _ in range(m):
-        times.append(times[-1] + unit * rng.uniform(0.15, 0.6))
-    delta = min(b - a for a, b in zip(times[:-1], times[1:]))
-    ksteps = rng.choice((1, 1, 2) if light else (1, 1, 2, 3))
-    if rng.random() < 0.35:
-        dt = delta / ksteps                     # divides the shortest interval (up to rounding)
-    else:
-        dt = delta / (ksteps - 1 + rng.uniform(0.15, 0.9))
+        k = rng.choice((1, 1, 2) if light else (1, 1, 2, 3))
+        length = k * dt if rng.random() < 0.35 else (k - 1 + rng.uniform(0.15, 0.9)) * dt
+        times.append(times[-1] + length)
     return tuple(times), dt
 
 
@@ -392,11 +453,35 @@ def initial_state(cs, n, counts, kinds):
     canon = rng.random() < 0.5
     if canon:
         psi.canonize_(to="first", normalize=rng.random() < 0.5)
-        if rng.random() < 0.3:
-            psi = rng.choice((2.0, 0.5, -1.5)) * psi            # canonical tensors, factor != 1
-            desc["scaled"] = True
+    if rng.random() < 0.3:
+        # any norm is legal: normalize=True gives norm 1, normalize=False keeps track of the norm (ratio to the start conserved)
+        f = rng.choice((2.0, 0.5, -1.5, 10.0 ** rng.randint(-20, 20), -(10.0 ** rng.randint(-20, 20))))
+        if canon or rng.random() < 0.5:
+            psi = f * psi                                        # psi.factor != 1, tensors untouched
+            desc["scaled"] = ["factor", f]
+        else:
+            j = rng.randrange(N)
+            psi[j] = f * psi[j]
+            desc["scaled"] = ["site", j, f]
     desc["canonical"] = canon
     return psi, desc
+
+
+def special_hamiltonian(rng, H, sp, N):
+    """Extreme but legal generators: H = 0 (factor 0), H = c * identity, H scaled by 10^k (k = -8..6)."""
+    import yastn.tn.mps as mps
+    kind = rng.choice(("zero", "identity", "scaled", "scaled", "scaled"))
+    if kind == "zero":
+        Hz = H[0] if isinstance(H, (list, tuple)) else H
+        return 0 * Hz, "single", {"special": "zero"}
+    if kind == "identity":
+        c = rng.choice((-1, 1)) * round(rng.uniform(0.3, 3.0), 3)
+        return c * mps.product_mpo(sp.I, N), "single", {"special": "identity", "c": c}
+    k = rng.choice((-8, -6, -4, -2, 2, 4, 6))
+    f = 10.0 ** k
+    if isinstance(H, (list, tuple)):
+        return type(H)([f * h for h in H]), "list", {"special": "scaled", "log10": k}
+    return f * H, "scaled", {"special": "scaled", "log10": k}
 
 
 def run_case(ctx, idx):
@@ -404,7 +489,7 @@ def run_case(ctx, idx):
     sym = G.ALL_SYMS[idx % len(G.ALL_SYMS)]
     timedep = (idx // 7) % 9 == 5
     order = rng.choice(("2nd", "2nd", "4th"))
-    Nch = (2, 3, 3, 4) if timedep else (2, 3, 3, 4, 4, 5, 5, 6)
+    Nch = (2, 3, 3, 4) if timedep else (1, 2, 2, 3, 3, 4, 4, 5, 5, 6)
     # a 4th-order step costs five sweeps: keep those chains (and the three-run order tests) smaller
     sp, N, groups = T.draw_chain(rng, nprng, sym, Nch, cap=64 if timedep else (600 if order == "2nd" else 200))
     cs = {"rng": rng, "nprng": nprng, "sp": sp, "N": N}
@@ -413,7 +498,12 @@ def run_case(ctx, idx):
     if timedep:
         return run_timedep(ctx, idx, cs, sym, groups, order)
     H, hform = T.build_H(rng, sp, N, groups, form)
-    Hd = T.hermitian_dense_or_skip(ctx, H, sp)
+    special = None
+    H_unscaled = H
+    if rng.random() < 0.12:
+        H, hform, special = special_hamiltonian(rng, H, sp, N)
+        ctx.count("H_special:" + special["special"])
+    Hd = T.hermitian_dense_or_skip(ctx, H, sp, allow_zero=special is not None)
     goal = rng.choice(("full", "full", "full", "conserve", "conserve", "grow"))
     n, dims = T.pick_charge(rng, sp, N)
     if goal == "full" and rng.random() < 0.8:
@@ -431,34 +521,65 @@ def run_case(ctx, idx):
     else:
         kinds = ("one", "frac", "random_mps")
     psi, sdesc = initial_state(cs, n, counts, kinds)
+    if rng.random() < 0.07:
+        must_reject(ctx, psi, H, {"idx": idx, "space": sp.desc(), "N": N}, rng)
     ukind, u = rng.choice(U_CHOICES) if goal == "full" else rng.choice(U_CHOICES[:4])
     method = rng.choice(("2site", "12site")) if goal == "grow" else rng.choice(("1site", "1site", "2site", "12site"))
+    if N == 1 and method == "2site":
+        method = rng.choice(("1site", "12site"))         # a two-site update needs two sites
     Dfull = max(sum(min(l, r) for l, r in c.values()) for c in counts)
     opts_svd = None
+    binding = False
     if method != "1site" or rng.random() < 0.15:
         opts_svd = rng.choice(({"D_total": 4 * Dfull + 8}, {"D_total": 4 * Dfull + 8, "tol": 1e-14}, {"tol": 1e-14},
-                               {"D_total": 100000, "tol": 1e-13}))
-    times, dt = draw_grid(rng, sec.scale, light=(order == "4th"))
+                               {"D_total": 100000, "tol": 1e-13}, {}, {}, {"D_total": 1}))
+        binding = opts_svd == {"D_total": 1} and method != "1site" and Dfull > 1
+    unit = 1.0 / sec.scale if sec.scale > 0 else 1.0
+    tiny = rng.random() < 0.06
+    times, dt = draw_grid(rng, unit, light=(order == "4th"), tiny=tiny)
     single_time = len(times) == 2 and times[0] == 0.0 and rng.random() < 0.4
     run = {"times": times, "times_arg": (times[1] if single_time else (list(times) if rng.random() < 0.3 else times)),
            "dt": dt, "u": u, "ukind": ukind, "method": method, "order": order, "opts_expmv": rng.choice(OPTS_EXPMV),
            "opts_svd": opts_svd, "normalize": rng.random() < 0.5, "subtract_E": rng.random() < 0.3,
            "precompute": rng.random() < 0.5, "yield_initial": rng.random() < 0.25, "counts": counts,
-           "conserving": True, "start_noncanonical": not sdesc["canonical"]}
+           "conserving": not binding, "start_noncanonical": not sdesc["canonical"], "shuffle": rng}
+    # optional arguments left out: none / one / all (pure defaults: tdvp_(psi, H)).  times and dt can only be left to their
+    # defaults (0, 0.1) and 0.1 when that keeps ||H|| * t moderate and the number of steps small
+    optional = ["u", "method", "order", "opts_expmv", "opts_svd", "normalize", "subtract_E", "precompute", "yield_initial"]
+    times_ok = 0.1 * sec.scale <= 6.0 and not binding
+    dt_ok = max(b - a for a, b in zip(times[:-1], times[1:])) <= 0.45
+    r = rng.random()
+    if r < 0.08 and times_ok:
+        run["omit"] = frozenset(optional + ["times", "dt"])
+    elif r < 0.40:
+        pool = optional + (["times"] if times_ok else []) + (["dt"] if dt_ok else [])
+        pick = rng.choice(pool)
+        run["omit"] = frozenset([pick])
+        if pick == "times":
+            run["dt"] = 0.1 / (rng.choice((1, 2, 3)) - 1 + rng.uniform(0.15, 0.9))      # a step that suits the default interval
+    else:
+        run["omit"] = frozenset()
+    apply_omissions(run)
+    times, dt, u, ukind, method, order, opts_svd = (run[k] for k in ("times", "dt", "u", "ukind", "method", "order", "opts_svd"))
+    single_time = single_time and "times" not in run["omit"]
+    binding = binding and run["opts_svd"] == {"D_total": 1} and run["method"] != "1site"
+    run["conserving"] = not binding
     v0, n_ten = T.mps_dense(psi, sp)
     ref0 = v0[sec.idx]
     if float(np.linalg.norm(ref0)) == 0:
         raise CaseSkip
-    full = T.exactness_premise(psi, counts)
+    full = T.exactness_premise(psi, counts) and not binding
     if T.is_full_manifold(psi, counts) and not full:
         ctx.count("maximal_bonds_but_mixed_completeness")
-    wrun = {k: (repr(v) if k in ("u", "opts_expmv", "times_arg") else v) for k, v in run.items() if k != "counts"}
-    witness = {"idx": idx, "space": sp.desc(), "N": N, "H_form": hform, "terms": T.terms_desc(groups), "charge": list(n),
+    wrun = {k: (repr(v) if k in ("u", "opts_expmv", "times_arg") else (sorted(v) if k == "omit" else v)) for k, v in run.items()
+            if k not in ("counts", "shuffle")}
+    witness = {"idx": idx, "space": sp.desc(), "N": N, "H_form": hform, "H_special": special, "terms": T.terms_desc(groups), "charge": list(n),
                "sector_dim": int(len(sec.idx)), "start": sdesc, "bond_dims_start": T.total_bond_dims(psi), "full_manifold": full,
                "goal": goal, "run": wrun}
     sig = (sym, sp.family, sp.fermionic, sp.phys.sectors, N, hform, len(groups), n, sdesc["kind"], sdesc.get("D_total"), sdesc["dtype"],
            sdesc["canonical"], sdesc.get("scaled"), len(times), times[0], single_time, ukind, repr(u), method, order, repr(run["opts_expmv"]),
-           repr(opts_svd), run["normalize"], run["subtract_E"], run["precompute"], run["yield_initial"], full)
+           repr(opts_svd), run["normalize"], run["subtract_E"], run["precompute"], run["yield_initial"], full, repr(special), tiny,
+           tuple(sorted(run["omit"])))
     ctx.count("H:" + ("list" if hform == "list" else "single"))
     ctx.count("Hform:" + hform)
     ctx.count("start:" + sdesc["kind"])
@@ -473,8 +594,19 @@ def run_case(ctx, idx):
         ctx.count("noncanonical_starts")
     if full:
         ctx.count("full_manifold_starts")
+    ctx.count(f"N={N}")
+    ctx.count("omitted:" + ("all" if len(run["omit"]) > 1 else (next(iter(run["omit"])) if run["omit"] else "none")))
+    if sdesc.get("scaled"):
+        ctx.count("start:scaled")
+    if tiny and "dt" not in run["omit"] and "times" not in run["omit"]:
+        ctx.count("tiny_dt_runs")
+    if opts_svd == {} and method != "1site":
+        ctx.count("2site_or_12site_with_empty_opts_svd")
+    if binding:
+        ctx.count("binding_truncation_runs(bookkeeping-only)")
 
     psi_backup = psi.shallow_copy() if not sdesc["canonical"] else None
+    psi_start = psi.shallow_copy() if (special is not None and special["special"] == "scaled") else None
     res = run_tdvp(ctx, psi, H, sec, run, "tdvp", witness, full, ref0)
     if res["bonds1"] != res["bonds0"]:
         ctx.count("bond_growth_runs")
@@ -491,7 +623,8 @@ def run_case(ctx, idx):
         psic.canonize_(to="first", normalize=run["normalize"])       # what a canonising tdvp_ would do first
         v0c, _ = T.mps_dense(psic, sp)
         kfail = min([f[2].get("snapshot", len(times) - 1) for f in failed] + [len(times) - 1])
-        run2 = dict(run, start_noncanonical=True, times=times[:kfail + 1], times_arg=tuple(times[:kfail + 1]), yield_initial=False)
+        run2 = dict(run, start_noncanonical=True, times=times[:kfail + 1], times_arg=tuple(times[:kfail + 1]), yield_initial=False,
+                    omit=run["omit"] - {"times", "yield_initial"}, shuffle=None)
         r2 = run_tdvp(sub, psic, H, sec, run2, "tdvp(canonised copy)", witness,
                       T.exactness_premise(psic, counts), v0c[sec.idx], judge=False)
         if not r2["failed"] and not sub.violations:
@@ -500,6 +633,30 @@ def run_case(ctx, idx):
                           f"tdvp_ started from a state that is not canonical (as produced by {sdesc['kind']}) violates {keys}; the same run from "
                           f"psi.canonize_(to='first') satisfies every clause, i.e. tdvp_ does not canonise its input although the docstring "
                           f"says it does.  First failure: {failed[0][1]}", dict(failed[0][2], failed_clauses=keys))
+            return
+    if psi_start is not None:
+        # metamorphic classification: exp(-u t H) depends on the product t*H only.  Re-run the *same evolution* written as
+        # (H / f, f * times, f * dt); if that run satisfies every clause, the failure is a dependence on the scale of H alone.
+        ctx.count("rescaled_reruns")
+        f = 10.0 ** special["log10"]
+        sub = type(ctx)(ctx.prop, ctx.tier, ctx.seed, mute=False)
+        sec1 = T.Sector(None, T.ham_dense(H_unscaled, sp), sp, N, n)
+        kfail = min([ff[2].get("snapshot", len(times) - 1) for ff in failed] + [len(times) - 1])
+        t2 = tuple(t * f for t in times[:kfail + 1])
+        run2 = dict(run, times=t2, times_arg=t2, dt=run["dt"] * f, yield_initial=False, omit=run["omit"] - {"times", "dt", "yield_initial"},
+                    shuffle=None)
+        if psi_backup is not None:
+            psi_start.canonize_(to="first", normalize=run["normalize"])
+        v0s, _ = T.mps_dense(psi_start, sp)
+        r2 = run_tdvp(sub, psi_start, H_unscaled, sec1, run2, "tdvp(rescaled)", witness, T.exactness_premise(psi_start, counts) and not binding,
+                      v0s[sec1.idx], judge=False)
+        if not r2["failed"] and not sub.violations:
+            keys = sorted({ff[0] for ff in failed})
+            ctx.violation("scale-dependence:H-scaled-" + ("down" if special["log10"] < 0 else "up"),
+                          f"tdvp_ with H = 1e{special['log10']} * H0 violates {keys}, while the same evolution written as (H0, times * "
+                          f"1e{special['log10']}, dt * 1e{special['log10']}) satisfies every clause: the result depends on the scale of H at "
+                          f"fixed t*H (expmv decides the 'happy breakdown' of its Krylov expansion by an absolute threshold tol on the "
+                          f"sub-diagonal, which has the units of H).  First failure: {failed[0][1]}", dict(failed[0][2], failed_clauses=keys))
             return
     for key, what, w in failed:
         ctx.violation(key, what, w)
@@ -524,7 +681,7 @@ def run_timedep(ctx, idx, cs, sym, groups, order):
         raise CaseSkip
     counts = T.block_counts(sp, N, n)
     scale = seca.scale + 2 * secb.scale
-    t0 = rng.choice((0.0, 0.3, -0.2))
+    t0 = rng.choice((0.0, 0.3, -0.2)) / scale
     order = rng.choice(("2nd", "4th"))
     # step sizes in the asymptotic regime but with errors well above the noise floor for three halvings
     dt0 = (rng.uniform(0.25, 0.4) if order == "2nd" else rng.uniform(0.9, 1.3)) / scale
@@ -563,6 +720,7 @@ def run_timedep(ctx, idx, cs, sym, groups, order):
     ctx.count("u:" + ukind)
     ctx.count(f"mo:{method}:{order}")
     ctx.count("H:" + ("list" if as_list else "single"))
+    ctx.count("timedep:callable-returns-" + ("list" if as_list else "mpo"))
     if sp.fermionic:
         ctx.count("fermionic_cases")
     errs = []
@@ -593,6 +751,7 @@ def judge_order(ctx, errs, order, method, witness):
     for a, b, lab in ((errs[0], errs[1], "dt->dt/2"), (errs[1], errs[2], "dt/2->dt/4")):
         if a > ORDER_FLOOR and b > ORDER_FLOOR:
             ctx.count("order_ratios_judged")
+            ctx.count("order_ratios_judged:" + order)
             ratio = a / b
             ctx.margin(f"order:{order}:needed/observed-ratio", need / ratio, 1.0)
             if ratio < need:
